@@ -1012,6 +1012,8 @@ class Interp:
                 return S.imul(q, S.iconst(1 << k, bits), bits)
         if op == 4 and a.hi is not None and a.hi < (1 << (bits - 1)) and b.op == 'iconst' and b.args[0] < (1 << (bits - 1)):
             return S.iudiv(a, b, bits)
+        if op == 6 and a.hi is not None and a.hi < (1 << (bits - 1)) and b.op == 'iconst' and 0 < b.args[0] < (1 << (bits - 1)):
+            return S.iurem(a, b, bits)
         if op == 8 or op == 9:
             # or / xor of values with disjoint bit ranges (packing of two fields into one word) = addition
             def tz(n):
